@@ -15,10 +15,12 @@ import (
 	"strings"
 	"time"
 
+	"github.com/gardenbed/charm/ui"
 	auto "github.com/moorara/algo/automata"
 
 	"github.com/gardenbed/emerge/internal/ebnf/parser/ast"
 	"github.com/gardenbed/emerge/internal/ebnf/parser/spec"
+	"github.com/gardenbed/emerge/internal/generate/golang"
 	regexast "github.com/gardenbed/emerge/internal/regex/parser/ast"
 	"github.com/gardenbed/emerge/internal/regex/parser/nfa"
 	"github.com/gardenbed/emerge/zz_verif/gen"
@@ -57,8 +59,31 @@ func (Engine) Meta() simrt.Meta {
 // ---- operations --------------------------------------------------------------------------------
 
 type Op struct {
-	Kind string `json:"kind"` // spec | spec_dfa | spec_lalr | ast | nfa | regex_dfa
+	Kind string `json:"kind"` // spec | spec_dfa | spec_lalr | ast | nfa | regex_dfa | generate
 	Text string `json:"text"`
+	// Dir is the private, empty output directory of a generate operation. It is handed out by the
+	// main goroutine before the operation runs (a worker must not touch harness state that
+	// synchronises: that would add happens-before edges the code under test does not have).
+	Dir string `json:"-"`
+}
+
+var genDirSeq int
+
+// withDir gives a generate operation its own fresh output directory on the real file system.
+func (e Engine) withDir(o Op) Op {
+	if o.Kind != "generate" {
+		return o
+	}
+	root := os.Getenv("VERIF_GEN_ROOT")
+	if root == "" {
+		root = os.TempDir()
+	}
+	genDirSeq++
+	o.Dir = filepath.Join(root, fmt.Sprintf("gen-%d-%d", os.Getpid(), genDirSeq))
+	if err := os.MkdirAll(o.Dir, 0o755); err != nil {
+		panic("cannot create the output directory of a generate operation: " + err.Error())
+	}
+	return o
 }
 
 func (o Op) key() string { return o.Kind + "\x00" + o.Text }
@@ -93,44 +118,47 @@ func (e Engine) Pool() []Op {
 		}
 	}
 	for i, t := range texts {
-		add(Op{"spec", t})
-		add(Op{"ast", t})
+		add(Op{Kind: "spec", Text: t})
+		add(Op{Kind: "ast", Text: t})
 		if i%2 == 0 {
-			add(Op{"spec_dfa", t})
+			add(Op{Kind: "spec_dfa", Text: t})
 		}
 		if i < 10 {
-			add(Op{"spec_lalr", t})
+			add(Op{Kind: "spec_lalr", Text: t})
 		}
 	}
 	for _, p := range patterns {
-		add(Op{"nfa", p})
-		add(Op{"regex_dfa", p})
+		add(Op{Kind: "nfa", Text: p})
+		add(Op{Kind: "regex_dfa", Text: p})
 	}
 	// generated patterns (atoms, bracket groups, quantifiers, one-edit mutations: many are rejected
 	// in different ways, some with more than one problem at once)
 	for i := 0; i < 60; i++ {
 		p, _ := gen.GenPattern(simrt.NewTape(simrt.Mix(171717, uint64(i))))
 		if len(p) > 0 && len(p) < 24 {
-			add(Op{"nfa", p})
+			add(Op{Kind: "nfa", Text: p})
 			if i%3 == 0 {
-				add(Op{"regex_dfa", p})
+				add(Op{Kind: "regex_dfa", Text: p})
 			}
 		}
 	}
 	for _, p := range []string{"[9-0", "a{4,2}(", "[z-a][", "x{3,1}|(", "[a-z]+", "[b-a]"} {
-		add(Op{"nfa", p})
-		add(Op{"regex_dfa", p})
+		add(Op{Kind: "nfa", Text: p})
+		add(Op{Kind: "regex_dfa", Text: p})
 	}
 	for i := 0; i < 6; i++ {
-		add(Op{"spec_dfa", gen.GenMultiDiag(simrt.NewTape(simrt.Mix(1715, uint64(i))))})
+		add(Op{Kind: "spec_dfa", Text: gen.GenMultiDiag(simrt.NewTape(simrt.Mix(1715, uint64(i))))})
 	}
 	for _, o := range collisionOps() {
+		add(o)
+	}
+	for _, o := range generateOps() {
 		add(o)
 	}
 	// a schedule may run the cheaper "spec" stage of any specification operation: close the pool under that
 	for _, o := range append([]Op(nil), pool...) {
 		if o.Kind == "spec_lalr" || o.Kind == "spec_dfa" {
-			add(Op{"spec", o.Text})
+			add(Op{Kind: "spec", Text: o.Text})
 		}
 	}
 	return pool
@@ -143,16 +171,41 @@ func collisionOps() []Op {
 	var out []Op
 	for _, v := range []string{".", "a.b", "x*", "[ab]", "a|b", "((", "a+"} {
 		out = append(out,
-			Op{"spec_dfa", "grammar lit;\nID = /[a-z]+/;\nstart = ID \"" + v + "\" ID;\n"},
-			Op{"spec_dfa", "grammar pat;\nANY = /" + v + "/;\nNUM = /[0-9]+/;\nstart = NUM ANY;\n"},
-			Op{"spec_dfa", "grammar tok;\nDOT = \"" + v + "\";\nstart = DOT DOT;\n"})
+			Op{Kind: "spec_dfa", Text: "grammar lit;\nID = /[a-z]+/;\nstart = ID \"" + v + "\" ID;\n"},
+			Op{Kind: "spec_dfa", Text: "grammar pat;\nANY = /" + v + "/;\nNUM = /[0-9]+/;\nstart = NUM ANY;\n"},
+			Op{Kind: "spec_dfa", Text: "grammar tok;\nDOT = \"" + v + "\";\nstart = DOT DOT;\n"})
 	}
 	out = append(out,
-		Op{"spec_dfa", "grammar n1;\nNUM = /[0-9]+/;\nstart = NUM;\n"},
-		Op{"spec_dfa", "grammar n2;\nNUM = /[0-7]+/;\nstart = NUM;\n"},
-		Op{"spec_dfa", "grammar n3;\nNUM = \"0\";\nstart = NUM;\n"},
-		Op{"spec_lalr", "grammar n1;\nNUM = /[0-9]+/;\nstart = NUM;\n"},
-		Op{"spec_lalr", "grammar n1;\nNUM = /[0-9]+/;\nstart = NUM NUM;\n"})
+		Op{Kind: "spec_dfa", Text: "grammar n1;\nNUM = /[0-9]+/;\nstart = NUM;\n"},
+		Op{Kind: "spec_dfa", Text: "grammar n2;\nNUM = /[0-7]+/;\nstart = NUM;\n"},
+		Op{Kind: "spec_dfa", Text: "grammar n3;\nNUM = \"0\";\nstart = NUM;\n"},
+		Op{Kind: "spec_lalr", Text: "grammar n1;\nNUM = /[0-9]+/;\nstart = NUM;\n"},
+		Op{Kind: "spec_lalr", Text: "grammar n1;\nNUM = /[0-9]+/;\nstart = NUM NUM;\n"})
+	return out
+}
+
+// generateOps run the whole pipeline - parse, scanner automaton, LALR table, templates - and write a
+// package into a private directory of the real file system (small grammars: the dependency's LALR
+// construction is slow under the race detector).
+func generateOps() []Op {
+	texts := []string{
+		"grammar n1;\nNUM = /[0-9]+/;\nstart = NUM;\n",
+		"grammar n1;\nNUM = /[0-7]+/;\nstart = NUM NUM;\n",
+		"grammar lit;\nID = /[a-z]+/;\nstart = ID \".\" ID;\n",
+		"grammar bad;\nstart = ID;\n",
+		"grammar opt;\nID = /[a-z]+/;\nstart = ID [ \",\" ID ] \";\";\n",
+		"grammar rep;\nNUM = $INT;\nstart = \"(\" { NUM \",\" } \")\";\n",
+		"grammar plus;\nWORD = /[A-Z][a-z]*/;\nstart = {{ WORD }} \".\";\n",
+		"grammar alt;\nstart = \"if\" cond | \"else\";\ncond = \"x\" | \"y\" | ;\n",
+		"grammar prec;\nNUM = /[0-9]+/;\n@left \"+\";\n@left \"*\";\nstart = start \"+\" start | start \"*\" start | NUM;\n",
+		"grammar str;\nSTR = $STRING;\nWS = /[ \\t]+/;\nstart = STR { STR };\n",
+		"grammar conf;\nAA = /a+/;\nBB = /a*b?/;\nstart = AA BB;\n",
+		"grammar amb;\nstart = start start | \"a\";\n",
+	}
+	var out []Op
+	for _, t := range texts {
+		out = append(out, Op{Kind: "generate", Text: t})
+	}
 	return out
 }
 
@@ -161,12 +214,15 @@ func (e Engine) hotOps(family int) []Op {
 	var out []Op
 	if family == 0 {
 		for _, p := range []string{`[a-z]+`, `[0-9]+`, `[^a-c]x`, `a{2,3}b?`, `(x|y)*z`, `\d+(\.\d+)?`, `[A-Za-z_][0-9A-Za-z_]*`} {
-			out = append(out, Op{"nfa", p}, Op{"regex_dfa", p})
+			out = append(out, Op{Kind: "nfa", Text: p}, Op{Kind: "regex_dfa", Text: p})
 		}
 		return out
 	}
 	if family == 2 {
 		return collisionOps()
+	}
+	if family == 3 {
+		return generateOps()
 	}
 	pool := e.Pool()
 	n := 0
@@ -224,7 +280,35 @@ func canonSpec(sp *spec.Spec) string {
 	return fmt.Sprintf("SPEC name=%s start=%s\n%s\nPRECEDENCES\n%s", sp.Name, sp.Grammar.Start, strings.Join(xs, "\n"), sp.Precedences.String())
 }
 
-// Exec runs one operation and returns its canonical result.
+// canonTree is the canonical text of a generated package: every file by name; inside a file the
+// lines are sorted and the comma-separated items of a line are sorted, so that an output whose
+// ORDER depended on something (property C15's matter) is not mistaken for interference, while
+// missing, extra, foreign or garbled content is.
+func canonTree(dir string) string {
+	var files []string
+	_ = filepath.Walk(dir, func(p string, info os.FileInfo, err error) error {
+		if err == nil && !info.IsDir() {
+			files = append(files, p)
+		}
+		return nil
+	})
+	sort.Strings(files)
+	var b strings.Builder
+	for _, f := range files {
+		data, _ := os.ReadFile(f)
+		lines := strings.Split(string(data), "\n")
+		for i, l := range lines {
+			items := strings.Split(l, ", ")
+			sort.Strings(items)
+			lines[i] = strings.Join(items, ", ")
+		}
+		sort.Strings(lines)
+		rel, _ := filepath.Rel(dir, f)
+		fmt.Fprintf(&b, "FILE %s bytes=%d\n%s\n", rel, len(data), strings.Join(lines, "\n"))
+	}
+	return b.String()
+}
+
 // Raw is the uncanonicalised outcome of one operation. Workers only produce Raw values; turning
 // them into canonical strings (fmt, sort - which synchronise through sync.Pool and would add
 // happens-before edges between workers that the code under test does not have) is done by the
@@ -241,6 +325,7 @@ type Raw struct {
 	lalrE  error
 	g      *ast.Grammar
 	d2     *auto.DFA
+	genErr error
 }
 
 // ExecRaw runs one operation.
@@ -252,10 +337,16 @@ func ExecRaw(o Op) (r *Raw) {
 		}
 	}()
 	switch o.Kind {
-	case "spec", "spec_dfa", "spec_lalr":
+	case "spec", "spec_dfa", "spec_lalr", "generate":
 		r.sp, r.err = spec.Parse("op.grammar", strings.NewReader(o.Text))
 		if r.err != nil {
 			return
+		}
+		if o.Kind == "generate" {
+			if o.Dir == "" {
+				panic("generate operation without an output directory")
+			}
+			r.genErr = golang.Generate(ui.NewNop(), &golang.Params{Path: o.Dir, Spec: r.sp})
 		}
 		if o.Kind == "spec_dfa" {
 			d, tm, err := r.sp.DFA()
@@ -316,6 +407,13 @@ func Canon(r *Raw) (out string) {
 		return canonErr(r.err)
 	}
 	switch r.op.Kind {
+	case "generate":
+		// the Spec handed to the generator may legitimately be completed by it (e.g. its name); what
+		// counts here is what was written
+		if r.genErr != nil {
+			return "GENERATE " + canonErr(r.genErr)
+		}
+		return "GENERATE ok\n" + canonTree(r.op.Dir)
 	case "spec", "spec_dfa", "spec_lalr":
 		out = canonSpec(r.sp)
 		if r.op.Kind == "spec_dfa" {
@@ -349,7 +447,17 @@ func Canon(r *Raw) (out string) {
 }
 
 // Exec runs one operation and returns its canonical result.
-func Exec(o Op) string { return Canon(ExecRaw(o)) }
+func (e Engine) Exec(o Op) string {
+	o = e.withDir(o)
+	defer cleanDir(o)
+	return Canon(ExecRaw(o))
+}
+
+func cleanDir(o Op) {
+	if o.Dir != "" {
+		os.RemoveAll(o.Dir)
+	}
+}
 
 // BuildIsoTable computes the isolated reference of every pool operation in a fresh process each.
 func (e Engine) BuildIsoTable(path string) error {
@@ -585,9 +693,13 @@ func (e Engine) Run(t *simrt.Tape, c simrt.Case, x *simrt.Ctx) *simrt.Result {
 	case 0:
 		pool = filterPool(pool, "nfa", "regex_dfa")
 	case 1:
-		pool = filterPool(pool, "spec", "spec_dfa", "spec_lalr", "ast")
+		pool = filterPool(pool, "spec", "spec_dfa", "spec_lalr", "ast", "generate")
 	case 2:
 		pool = collisionOps()
+	case 3:
+		if c.Args[0] != kHistory || t.Chance(1, 2) {
+			pool = generateOps()
+		}
 	}
 
 	checkRaces := func(note string) bool {
@@ -615,15 +727,24 @@ func (e Engine) Run(t *simrt.Tape, c simrt.Case, x *simrt.Ctx) *simrt.Result {
 	}
 
 	if c.Args[0] == kPairs {
-		pool = e.hotOps(t.Draw(3))
+		pool = e.hotOps(t.Draw(4))
 	}
 	switch c.Args[0] {
 	case kHistory:
 		n := 2 + t.Draw(7)
 		var names []string
+		var ops []Op
+		var raws []*Raw
+		defer func() {
+			for _, o := range ops {
+				cleanDir(o)
+			}
+		}()
 		for i := 0; i < n; i++ {
-			o := pool[t.Draw(len(pool))]
-			got := Exec(o)
+			o := e.withDir(pool[t.Draw(len(pool))])
+			r := ExecRaw(o)
+			ops, raws = append(ops, o), append(raws, r)
+			got := Canon(r)
 			res.Evals++
 			names = append(names, fmt.Sprintf("%s#%x", o.Kind, simrt.HashString(o.Text)&0xffff))
 			if strings.HasPrefix(got, "ERROR") && i < n-1 {
@@ -631,7 +752,17 @@ func (e Engine) Run(t *simrt.Tape, c simrt.Case, x *simrt.Ctx) *simrt.Result {
 			}
 			if want := e.iso(o); got != want {
 				x.Tracef("history so far: %v", names)
-				res.Violation = &simrt.Violation{Class: "history_affects_result:" + o.Kind, Message: fmt.Sprintf("operation %d of the history (%s on %q) gives a result different from an isolated run\n--- isolated ---\n%s\n--- in this history ---\n%s", i, o.Kind, clip(o.Text, 200), clip(want, 1200), clip(got, 1200)),
+				res.Violation = &simrt.Violation{Class: "history_affects_result:" + o.Kind, Message: fmt.Sprintf("operation %d of the history (%s on %q) gives a result different from an isolated run\n--- isolated ---\n%s\n--- in this history ---\n%s", i, o.Kind, clip(o.Text, 200), clipDiff(want, got, 1200), clipDiff(got, want, 1200)),
+					Detail: map[string]any{"history": names}}
+				return res
+			}
+		}
+		// a result the caller still holds must not change when something else is processed afterwards
+		for i, r := range raws {
+			res.Evals++
+			if got, want := Canon(r), e.iso(ops[i]); got != want {
+				x.Tracef("history: %v", names)
+				res.Violation = &simrt.Violation{Class: "later_run_alters_earlier_result:" + ops[i].Kind, Message: fmt.Sprintf("the result of operation %d of the history (%s on %q) was right when it was returned and is different after the operations that followed it\n--- isolated / when returned ---\n%s\n--- after the rest of the history ---\n%s", i, ops[i].Kind, clip(ops[i].Text, 200), clipDiff(want, got, 1200), clipDiff(got, want, 1200)),
 					Detail: map[string]any{"history": names}}
 				return res
 			}
@@ -654,6 +785,8 @@ func (e Engine) Run(t *simrt.Tape, c simrt.Case, x *simrt.Ctx) *simrt.Result {
 				if o.Kind == "spec_lalr" && t.Chance(1, 2) {
 					o.Kind = "spec" // keep most schedules short
 				}
+				o = e.withDir(o)
+				defer cleanDir(o)
 				lists[w] = append(lists[w], o)
 				desc = append(desc, fmt.Sprintf("w%d:%s#%x", w, o.Kind, simrt.HashString(o.Text)&0xffff))
 			}
@@ -743,7 +876,7 @@ func (e Engine) Run(t *simrt.Tape, c simrt.Case, x *simrt.Ctx) *simrt.Result {
 			for j, o := range lists[w] {
 				res.Evals++
 				if want := e.iso(o); results[w][j] != want {
-					res.Violation = &simrt.Violation{Class: "concurrent_result_differs:" + o.Kind, Message: fmt.Sprintf("worker %d, operation %d (%s on %q) under the simulated schedule gives a result different from an isolated run\n--- isolated ---\n%s\n--- concurrent ---\n%s\n  workers: %v\n  schedule: %s", w, j, o.Kind, clip(o.Text, 200), clip(want, 1200), clip(results[w][j], 1200), desc, clip(rle(schedule), 400)),
+					res.Violation = &simrt.Violation{Class: "concurrent_result_differs:" + o.Kind, Message: fmt.Sprintf("worker %d, operation %d (%s on %q) under the simulated schedule gives a result different from an isolated run\n--- isolated ---\n%s\n--- concurrent ---\n%s\n  workers: %v\n  schedule: %s", w, j, o.Kind, clip(o.Text, 200), clipDiff(want, results[w][j], 1200), clipDiff(results[w][j], want, 1200), desc, clip(rle(schedule), 400)),
 						Detail: map[string]any{"workers": desc, "policy": policy}}
 					return res
 				}
@@ -783,6 +916,18 @@ func rle(s []byte) string {
 		i = j
 	}
 	return b.String()
+}
+
+// clipDiff clips a to n bytes around the first position at which it differs from b.
+func clipDiff(a, b string, n int) string {
+	i := 0
+	for i < len(a) && i < len(b) && a[i] == b[i] {
+		i++
+	}
+	if i < n/2 || len(a) <= n {
+		return clip(a, n)
+	}
+	return "…" + clip(a[i-n/2:], n)
 }
 
 func clip(s string, n int) string {
